@@ -100,13 +100,19 @@ func c17judge(c *h.Ctx, cs c17case, in, out orb.LineString, df orb.DistanceFunc,
 
 // a long-lived buffer: half of the calls hand the library the same backing array with new contents
 // (callers edit and reuse slices; nothing may be remembered about an earlier call's slice)
+var c17ret retained
+
 var c17buf = make(orb.LineString, 64)
+
+var c17argFresh bool
 
 func c17arg(r *h.Rand, in orb.LineString) orb.LineString {
 	if in != nil && len(in) <= len(c17buf) && r.Bool() {
 		copy(c17buf, in)
+		c17argFresh = false
 		return c17buf[:len(in):len(in)]
 	}
+	c17argFresh = true
 	return cloneLS(in)
 }
 
@@ -210,6 +216,10 @@ func init() {
 								c.Fail("", "an all-coincident line is not padded/truncated to N copies of its point", map[string]interface{}{"case": cs, "output": sv(out)})
 							}
 						default:
+							c17ret.check(c)
+							if c17argFresh { // (the documented in-place API may return the argument's own storage)
+								c17ret.set(out, "resample.Resample")
+							}
 							c17judge(c, cs, in, out, dfi.f, n)
 							if n >= 3 {
 								c.Nontrivial(h.Mix(hashPts(in), uint64(n), h.HashString(dfi.name)))
